@@ -28,13 +28,41 @@ use super::types::RouterInfo;
 use super::unit::BmpTcpIn;
 use super::util::format_source_id;
 
-#[derive(Debug, Default)]
-struct Capture(StdMutex<Vec<Update>>);
+/// The downstream end of the gate. `hold` makes it apply back-pressure:
+/// while it is on, `direct_update` (and with it the `gate.update_data(..)
+/// .await` of the sender) does not return.
+#[derive(Debug)]
+struct Capture {
+    updates: StdMutex<Vec<Update>>,
+    hold: tokio::sync::watch::Sender<bool>,
+    parked: std::sync::atomic::AtomicUsize,
+}
+
+impl Default for Capture {
+    fn default() -> Self {
+        Self {
+            updates: Default::default(),
+            hold: tokio::sync::watch::channel(false).0,
+            parked: Default::default(),
+        }
+    }
+}
 
 #[async_trait]
 impl DirectUpdate for Capture {
     async fn direct_update(&self, update: Update) {
-        self.0.lock().unwrap().push(update);
+        use std::sync::atomic::Ordering::SeqCst;
+        let mut rx = self.hold.subscribe();
+        if *rx.borrow_and_update() {
+            self.parked.fetch_add(1, SeqCst);
+            while *rx.borrow_and_update() {
+                if rx.changed().await.is_err() {
+                    break;
+                }
+            }
+            self.parked.fetch_sub(1, SeqCst);
+        }
+        self.updates.lock().unwrap().push(update);
     }
 }
 impl AnyDirectUpdate for Capture {}
@@ -173,7 +201,7 @@ impl StreamFixture {
 
     /// Every update that left the gate so far, in order.
     pub fn updates(&self) -> Vec<Update> {
-        self.capture.0.lock().unwrap().clone()
+        self.capture.updates.lock().unwrap().clone()
     }
 
     /// 0 initiating, 1 dumping, 2 updating, 3 terminated, 4 aborted,
@@ -307,5 +335,66 @@ impl StreamFixture {
             .body(hyper::Body::empty())
             .ok()?;
         Self::verif_finish(api.process_request(&req).await).await
+    }
+}
+
+// ---- the HTTP endpoints of this connection, and back-pressure (C12) ----
+
+impl StreamFixture {
+    /// The unit's router list and this router's info endpoint the way
+    /// `BmpTcpIn::run` and `setup_router_specific_api_endpoint` (unit.rs)
+    /// build them: over the SAME state machine mutex, router maps, metrics
+    /// and ingress register that this connection's `RouterHandler` uses.
+    /// Returns (router list, router info); the caller registers them.
+    pub fn http_processors(
+        &self,
+        resources: crate::http::Resources,
+        http_api_path: &str,
+    ) -> (
+        Arc<dyn crate::http::ProcessRequest>,
+        Arc<dyn crate::http::ProcessRequest>,
+    ) {
+        use super::http::{RouterInfoApi, RouterListApi};
+        let http_api_path = Arc::new(http_api_path.to_string());
+        let list = RouterListApi::new(
+            resources.clone(),
+            http_api_path.clone(),
+            self.router_info.clone(),
+            self.conn_metrics.clone(),
+            self.bmp_metrics.clone(),
+            Arc::new(ArcSwap::from_pointee(
+                BmpTcpIn::default_router_id_template(),
+            )),
+            self.router_states.clone(),
+            self.register.clone(),
+        );
+        let connected = self
+            .router_info
+            .get(&self.router_id)
+            .unwrap_or_else(|| Arc::new(RouterInfo::new()));
+        let info = RouterInfoApi::new(
+            resources,
+            http_api_path,
+            self.router_id,
+            self.conn_metrics.clone(),
+            self.bmp_metrics.clone(),
+            connected.connected_at,
+            connected.last_msg_at.clone(),
+            Arc::downgrade(&self.state),
+            self.register.clone(),
+        );
+        (Arc::new(list), Arc::new(info))
+    }
+
+    /// Downstream back-pressure on/off: while on, every update that leaves
+    /// the gate waits at the receiving end (the sender's
+    /// `gate.update_data(..).await` does not return).
+    pub fn hold_updates(&self, on: bool) {
+        self.capture.hold.send_replace(on);
+    }
+
+    /// Number of updates currently waiting at the receiving end.
+    pub fn parked(&self) -> usize {
+        self.capture.parked.load(std::sync::atomic::Ordering::SeqCst)
     }
 }
